@@ -9,12 +9,20 @@ import (
 
 type vfPoolBehavior struct {
 	Pool
-	handled int
+	handled  int
+	order    []int       // C03: payloads in handling order (forwards as -(index+1) until resolved)
+	onHandle func(n int) // C03: called inside every handler / forward with the number handled before
 }
 
 func (b *vfPoolBehavior) Init(args ...any) (PoolOptions, error) { return PoolOptions{}, nil }
 func (b *vfPoolBehavior) HandleMessage(from gen.PID, message any) error {
 	b.handled++
+	if b.onHandle != nil {
+		b.onHandle(len(b.order))
+	}
+	if m, ok := message.(int); ok {
+		b.order = append(b.order, m)
+	}
 	return nil
 }
 func (b *vfPoolBehavior) HandleCall(from gen.PID, ref gen.Ref, request any) (any, error) {
